@@ -158,7 +158,8 @@ def run(repo="/repo", modules=None, function=None, keep=None, rlimit=None, threa
             return res
         res.anchors = anchors
         json.dump(anchors, open(os.path.join(out, "anchors.json"), "w"), indent=1)
-        args = ["--output-json", "--time-expanded", "--error-format=json",
+        args = ["--smt-option", "smt.dt_lazy_splits=2",
+                "--output-json", "--time-expanded", "--error-format=json",
                 "--multiple-errors", str(multiple_errors), "--num-threads", str(threads)]
         if rlimit:
             args += ["--rlimit", str(rlimit)]
